@@ -88,10 +88,10 @@ CLAIMS.update({
              "template of <=5 bytes (three harnesses partition the input space: unbraced, braced-plain, braced-any); the Matcher "
              "trait's default find_iter / captures_iter (what replace_all is built on) yield exactly the regex library's successive "
              "matches for every span table over <=4 bytes; printer::util::find_iter_at_in_context yields the pattern's matches in the "
-             "line's content for terminated and unterminated lines. Thorough tier: differential against regex_automata::util::interpolate "
-             "itself on a class alphabet.",
+             "line's content for terminated and unterminated lines.",
         note="Template expansion is checked at the reference-grammar level (a 25-line transcription of the pinned regex-automata 0.4.7) in "
-             "the quick tier. Replacer::replace_all's copying of the text between matches and -U look-ahead window are not covered; the regex "
+             "both tiers (the differential harness against regex_automata::util::interpolate::bytes itself did not finish in 30 min / 13 GB "
+             "at 3 template symbols and is not registered). Replacer::replace_all's copying of the text between matches and -U look-ahead window are not covered; the regex "
              "engine's capture semantics are trusted.",
         technique=K_TECH,
         design="2 (C19), 7"),
